@@ -444,6 +444,12 @@ func (k *Walker) PathArgs(cmd string) []string {
 				a = k.W.SB.W() + "/" + a
 			}
 			k.W.C.Class("arg:" + cmd + ":absolute-spelling")
+		} else if class != "hostile" && a != "." && cmd == "add" && IsFileOnDisk(k.W.State(), a) && k.chance(8) {
+			// spellings that lead THROUGH a file or through a directory that does not exist: they name nothing (stat
+			// fails), although the name they clean to is there -- refusing is fine, staging the file is fine, taking the
+			// file for a deleted one is not
+			a = pickS(k.R, []string{a + "/", a + "/.", "no-such-dir/../" + a, a + "/../" + path.Base(a)})
+			k.W.C.Class("arg:" + cmd + ":through-file-spelling")
 		} else if class != "hostile" && a != "." && k.chance(10) {
 			switch k.R.IntN(3) {
 			case 0:
@@ -844,7 +850,7 @@ func (k *Walker) doReset() {
 		arg = pickS(k.R, []string{fmt.Sprintf("HEAD@{%d}", n), fmt.Sprintf("HEAD@{%d}", n+1), "HEAD@{99}", "HEAD@{-1}", "HEAD@{}", "HEAD@{a}", "HEAD@1", "xHEAD@{1}y", "HEAD@{1}{2}", "HEAD", "main", "",
 			"HEAD@{2147483648}", "HEAD@{4294967296}", "HEAD@{9223372036854775807}", "HEAD@{9223372036854775808}", "HEAD@{18446744073709551615}", "HEAD@{18446744073709551616}", "HEAD@{99999999999999999999999}"})
 	} else if n > 0 {
-		arg = fmt.Sprintf("HEAD@{%d}", k.R.IntN(n))
+		arg = k.posArg(k.R.IntN(n))
 	} else {
 		arg = "HEAD@{0}"
 	}
